@@ -229,7 +229,7 @@ def implIndex (a b : Val) : Res :=
 /-! ## Match  (dyads.py eval_dyad_match → backends/base.py kg_equal, 405–475) -/
 
 def atomEq : Val → Val → Option Bool
-  | .int a, .int b => some (a == b)            -- 461–463: two integers match only when equal
+  | .int a, .int b => some (a == b)            -- 460–462: two integers match only when equal
   | .real _, _ => none
   | _, .real _ => none
   | .dict _, _ => none
@@ -258,14 +258,14 @@ def kgEqual : Val → Val → Option Bool
     if isRealArr (.list xs) || isRealArr (.list ys) then none
     -- 415–417: both non-object ndarrays: np.array_equal (same shape, all elements ==)
     else if isIntArr (.list xs) && isIntArr (.list ys) then some (Val.beqList xs ys)
-    -- 451–456: two object arrays of size ≥ 128 try np.array_equal first
+    -- 448–453: two object arrays of size ≥ 128 try np.array_equal first
     else if !isIntArr (.list xs) && !isIntArr (.list ys) && xs.length ≥ 128 then none
-    -- 457–458
+    -- 454–456
     else if xs.length != ys.length then some false
     else kgEqualL xs ys
   | .list _, .dict _ => none
   | .dict _, .list _ => none
-  | .list _, _ => some false                   -- 441–442
+  | .list _, _ => some false                   -- 440–441
   | _, .list _ => some false
   | a, b => atomEq a b
 /-- `all(kg_equal(x, y) for x, y in zip(a, b))` (stops at the first False) -/
